@@ -3,7 +3,10 @@
 package statefulset
 
 import (
+	"k8s.io/client-go/tools/record"
 	"k8s.io/client-go/util/workqueue"
+
+	k8s "github.com/pingcap/advanced-statefulset/pkg/third_party/k8s"
 )
 
 // Hooks for the out-of-tree verification harness. This file only exists when
@@ -27,4 +30,19 @@ func (ssc *StatefulSetController) VerifQueue() workqueue.RateLimitingInterface {
 // VerifSetQueue substitutes the controller's work queue.
 func (ssc *StatefulSetController) VerifSetQueue(q workqueue.RateLimitingInterface) {
 	ssc.queue = q
+}
+
+// VerifSetRecorder substitutes the event recorder everywhere the constructor
+// put one (events are asynchronous and outside every checked property).
+func (ssc *StatefulSetController) VerifSetRecorder(r record.EventRecorder) {
+	if c, ok := ssc.control.(*defaultStatefulSetControl); ok {
+		c.recorder = r
+		if pc, ok := c.podControl.(*realStatefulPodControl); ok {
+			pc.recorder = r
+		}
+	}
+	if pc, ok := ssc.podControl.(k8s.RealPodControl); ok {
+		pc.Recorder = r
+		ssc.podControl = pc
+	}
 }
